@@ -7,7 +7,7 @@
    Binding: every case TLC enumerates is configured into an in-process MOSN (HTTP/1) through the router manager and one real
    request is sent: the scripted upstream records what each attempt received / the hosts answer, refuse, close or hang as the
    outcome script says, hooks tell how every attempt ended; the timeout matrix (incl. protocol-supplied values) additionally
-   goes through the real route objects and parseProxyTimeout."""
+   goes through the real route objects and parseProxyTimeout, and through a bolt listener (frame timeout field) end to end."""
 import json, os, random, re
 from concurrent.futures import ThreadPoolExecutor
 import vlib
@@ -142,15 +142,18 @@ def run(ctx):
     # ---------- 2. real code: record
     binary = vlib.go_build("c17")
     tmo_trace = os.path.join(ctx.tmp, "tmo.ndjson")
+    bolt_trace = os.path.join(ctx.tmp, "bolt.ndjson")
     with ThreadPoolExecutor(max_workers=3) as ex:
         f_tmo = ex.submit(vlib.run_driver, ctx, binary, ["-mode", "tmo", "-cases", actfile, "-trace", tmo_trace])
+        f_bolt = ex.submit(vlib.run_driver, ctx, binary, ["-mode", "bolt", "-cases", actfile, "-trace", bolt_trace])
         f_act = ex.submit(lc.run_sharded, ctx, "c17", act, 6, ["-mode", "act"])
         f_tmo.result()
+        f_bolt.result()
         act_traces, _ = f_act.result()
     # the retry runs use real timers: they get the machine to themselves as far as this check is concerned
     os.rename(os.path.join(ctx.tmp, "c17_picked.jsonl"), os.path.join(ctx.tmp, "c17_act_picked.jsonl"))
     act_lines = []
-    for t in act_traces + [tmo_trace]:
+    for t in act_traces + [tmo_trace, bolt_trace]:
         act_lines += open(t).read().splitlines()
     retry_traces, retry_results = lc.run_sharded(ctx, "c17", retry, 12 if q else 14, ["-mode", "retry"], timeout=3000)
     stalled = sum(1 for r in retry_results if r.get("stalled"))
@@ -253,12 +256,12 @@ def run(ctx):
                        "at route x virtual host x router level x 4 incoming header states, on the request and (another case) the response side; "
                        "rule kind x prefix_rewrite x regex_rewrite menu x host_rewrite x auto_host_rewrite_header x paths x query; redirect "
                        "scheme x host x path x code x request host port x query; direct response status x body; timeouts route x header x "
-                       "protocol values incl. malformed (component: all, e2e: the HTTP/1 expressible ones). Retry: policy (retry_on x "
+                       "protocol values incl. malformed (component: all; HTTP/1 and bolt end to end: the ones the protocol can express). Retry: policy (retry_on x "
                        "num_retries {0,2,5} x status list {none,[503],[404,500]}) x outcome scripts over {200,404,500,503,connect failure, "
                        "termination, per-try timeout, global timeout, overflow} to length %d in canonical form (last repeats), plus "
                        "num_retries {9,10} with persistent outcomes; quick: all scripts of length <=2, a VERIF_SEED sample of the rest" % (3 if q else 4))
     ctx.assumptions += [
-        "HTTP/1 downstream and upstream, plain TCP (current scheme http); protocol-supplied timeouts are checked at component level (parseProxyTimeout with the variable set as the xprotocol stream layer sets it)",
+        "HTTP/1 downstream and upstream, plain TCP (current scheme http); the protocol-supplied global timeout is bolt's frame timeout field (end to end through a bolt listener) and, at component level, the proxy_global_timeout / proxy_try_timeout variables given to parseProxyTimeout",
         "header values are plain strings (no %variable% formatters); regex_rewrite limited to the menu of RouteAction.tla, whose hand-written meaning is cross-checked against Go regexp by the driver",
         "prefix_rewrite on regex rules, auto_host_rewrite (STRICT_DNS), redirect hosts with ports and a path rule matched case-insensitively are not exercised",
         "fresh host: selection is re-run for every retry; observed as consecutive attempts never landing on the same host of a 4-host round-robin cluster with no other traffic",
